@@ -9,7 +9,7 @@ import io
 import itertools
 import os
 
-from ..mon.recctx import RecordingContext
+from ..mon.recctx import FlatContext, RecordingContext
 from ..ref import refparse
 
 ID = "C03"
@@ -81,11 +81,47 @@ def shards(tier):
 DECOY_RUNS = [0]
 
 
-def observe_parser(text):
+NTH = [0]
+NESTED = [0]
+_IN_NESTED = [False]
+NESTED_TEXTS = [
+    # (text, expected outcome class, expected number of events)
+    ("<a>\nk v\n</a>\n</a>\n", "syntax", None),
+    ("<a>\n<b>\n</b>\n", "syntax", None),
+    ("</a>\n", "syntax", None),
+    ("%define n w\n<a x>\n  k $n\n  <b/>\n</a>\nk2 $$\n", "ok", 6),
+    ("%define n w\n%define n x\n", "syntax", None),
+    ("k $n\n", "subst-missing", None),
+]
+
+
+class NestedBroken(Exception):
+    pass
+
+
+def nested_parses():
+    """Run from inside a callback of a parse in progress: other texts are
+    parsed start to finish by parsers of their own; each must come out as
+    it does on its own, and the outer parse must not notice."""
+    if _IN_NESTED[0]:
+        return
+    _IN_NESTED[0] = True
+    try:
+        NESTED[0] += 1
+        text, want, nev = NESTED_TEXTS[NESTED[0] % len(NESTED_TEXTS)]
+        ev, out, defs = observe_parser(text, plain=True)
+        if out[0] != want or (nev is not None and len(ev) != nev):
+            raise NestedBroken("nested parse of %r gave %r with %d events"
+                               % (text, out, len(ev)))
+    finally:
+        _IN_NESTED[0] = False
+
+
+def observe_parser(text, plain=False, flat=False, raw_newlines=False):
     import ZConfig
     from ZConfig.cfgparser import ZConfigParser
     from ZConfig.schemaless import Resource
-    if "<" in text and text != text.lower():
+    if "<" in text and text != text.lower() and not plain:
         # an application's own parser subclass reading the same text first
         # (case kept, as _normalize_case allows): whatever it leaves behind
         # in the module or the class must not reach the stock parser
@@ -100,8 +136,13 @@ def observe_parser(text):
         except Exception:  # noqa
             pass
         DECOY_RUNS[0] += 1
-    ctx = RecordingContext()
-    parser = ZConfigParser(Resource(io.StringIO(text), None), ctx)
+    ctx = FlatContext() if flat else RecordingContext()
+    NTH[0] += 1
+    if NTH[0] % 8 == 0 and not flat and not plain:
+        ctx.reenter = nested_parses
+    parser = ZConfigParser(Resource(
+        io.StringIO(text, newline="") if raw_newlines
+        else io.StringIO(text), None), ctx)
     ctx.parser = parser
     try:
         parser.parse(ctx.top)
@@ -249,6 +290,36 @@ def check_text(ctx, text, family):
                 detail="text=%r" % text,
                 vsig="parser|%s|%s|%s" % (exp_out[0], obs_out[0],
                                           text_sig(text, exp_out)))
+    if exp_out[0] != "unjudged" and res.evaluations % 8 == 3:
+        # a context with transparent sections (the child of a container is
+        # the container itself): nesting is the parser's business all the
+        # same - only the outcome can be compared
+        _ev, f_out, _d = observe_parser(text, flat=True)
+        res.count("flat_context_parses")
+        if not outcome_agrees(exp_out, f_out):
+            res.violate("parser-outcome-depends-on-context",
+                        dict(case, point="flat-context"), list(exp_out),
+                        list(f_out), detail="text=%r" % text,
+                        vsig="flat|%s|%s" % (exp_out[0], f_out[0]))
+    if "\r" in text and exp_out[0] != "unjudged":
+        # the same text from a file object that hands out lines ending in
+        # CR or CR LF untranslated: a line is what readline() delivers
+        norm = text.replace("\r\n", "\n").replace("\r", "\n")
+        n_events, n_out, n_defs = refparse.parse(norm, env=env,
+                                                 judge_redefine=False)
+        r_events, r_out, r_defs = observe_parser(text, raw_newlines=True)
+        res.count("raw_newline_parses")
+        if n_out[0] != "unjudged" and not (
+                outcome_agrees(n_out, r_out) and
+                strip_lineno(n_events) == strip_lineno(r_events)):
+            res.violate("parser-trace-disagrees",
+                        dict(case, point="raw-newlines"),
+                        {"outcome": list(n_out),
+                         "events": strip_lineno(n_events)},
+                        {"outcome": list(r_out),
+                         "events": strip_lineno(r_events)},
+                        detail="newline='' text=%r" % text,
+                        vsig="rawnl|%s|%s" % (n_out[0], r_out[0]))
     # second observation point: schemaless
     s_events, s_out, _ = refparse.parse(text, schemaless=True, env=env)
     o_out, o_tree = observe_schemaless(text)
@@ -466,6 +537,9 @@ def _run_shard(ctx):
                 continue
             check_text(ctx, "\n".join(seq) + ("\n" if idx % 2 else ""),
                        "pool")
+            if idx % 5 == 0 and n > 1:
+                check_text(ctx, ("\r\n" if idx % 10 else "\r").join(seq) +
+                           "\n", "pool-cr")
     # (b') long runs of lines that carry nothing, between lines that do
     idx = 0
     for n in (150, 1100, 2600) if ctx.quick else (150, 990, 1100, 2600,
@@ -487,6 +561,7 @@ def _run_shard(ctx):
     for i in range(RANDOM[ctx.tier] // ctx.nshards):
         check_text(ctx, random_text(rng), "random")
     ctx.res.hook("case_preserving_subclass_parsed_first", DECOY_RUNS[0])
+    ctx.res.hook("parses_nested_in_a_callback", NESTED[0])
     ctx.res.info["bounds"] = {
         "alphabet": ALPHABET, "single_line_max_len": bound,
         "pool_size": len(pool), "pool_max_lines": maxlines,
